@@ -65,4 +65,17 @@ def decodeRangeFile (file : List Nat) : Option (Hdr × List Rng) := do
   let data := (file.drop 5760).take (h.naxis1 * h.naxis2)
   pure (h, decodeWords (wordsOf h.naxis1 h.naxis2 data))
 
+/-- The values the reader extracts from the table header of an ST-MOC file: row width, row count, dimension,
+    ordering, time depth, space depth, column format. -/
+def decodeHdrST (tableBlock : List Char) : Option (Nat × Nat × List Char × List Char × Nat × Nat × List Char) := do
+  let cs := scanCards 36 tableBlock
+  let n1 ← (findCard ['N', 'A', 'X', 'I', 'S', '1', ' ', ' '] cs).bind readUint
+  let n2 ← (findCard ['N', 'A', 'X', 'I', 'S', '2', ' ', ' '] cs).bind readUint
+  let dim ← (findCard ['M', 'O', 'C', 'D', 'I', 'M', ' ', ' '] cs).bind readStr
+  let ord ← (findCard ['O', 'R', 'D', 'E', 'R', 'I', 'N', 'G'] cs).bind readStr
+  let dt ← (findCard ['M', 'O', 'C', 'O', 'R', 'D', '_', 'T'] cs).bind readUint
+  let ds ← (findCard ['M', 'O', 'C', 'O', 'R', 'D', '_', 'S'] cs).bind readUint
+  let tf ← (findCard ['T', 'F', 'O', 'R', 'M', '1', ' ', ' '] cs).bind readStr
+  pure (n1, n2, dim, ord, dt, ds, tf)
+
 end Moc.Fits
